@@ -11,11 +11,14 @@ package main
 // accepted, ran, and how many host-visible effects happened.
 
 import (
+	"errors"
 	"flag"
 	"fmt"
+	"os"
 	"sort"
 	"strings"
 
+	"go.starlark.net/repl"
 	"go.starlark.net/resolve"
 	"go.starlark.net/starlark"
 	"go.starlark.net/syntax"
@@ -482,9 +485,22 @@ func plants() []*plant {
 		ps = append(ps, &plant{Kind: kind, IsExpr: true, Expr: text, Expect: always(rule)})
 	}
 	// call argument lists
-	ex("arg-pos-after-named", "log(k=1, \x012)", "RArgPosAfterNamed")
-	ex("arg-pos-after-star", "log(*[1], \x012)", "RArgPosAfterStar")
-	ex("arg-pos-after-kwargs", "log(**{}, \x012)", "RArgPosAfterKwargs")
+	// the misplaced positional argument ranges over the expression forms (every kind of syntax.Expr an argument can be)
+	argForms := map[string]string{"literal": "2", "ident": "len", "neg": "-len", "pos": "+1", "invert": "~1", "not": "not 1", "paren": "(1)",
+		"binary": "1 + 2", "list": "[1]", "dict": "{1: 2}", "call": "log(1)", "lambda": "lambda: 1", "cond": "1 if 1 else 2",
+		"comprehension": "[q8 for q8 in [1]]", "index": "[1][0]", "dot": "len.real", "tuple": "(1, 2)", "string": "\"s\""}
+	formNames := []string{}
+	for k := range argForms {
+		formNames = append(formNames, k)
+	}
+	sort.Strings(formNames)
+	for _, fnm := range formNames {
+		ex("arg-pos-after-named:"+fnm, "log(k=1, \x01"+argForms[fnm]+")", "RArgPosAfterNamed")
+		ex("arg-pos-after-star:"+fnm, "log(*[1], \x01"+argForms[fnm]+")", "RArgPosAfterStar")
+		ex("arg-pos-after-kwargs:"+fnm, "log(**{}, \x01"+argForms[fnm]+")", "RArgPosAfterKwargs")
+	}
+	// 256 positional arguments that are unary expressions
+	ex("arg-256-positional-unary", strings.Replace(strings.Replace(manyArgs(false), "0", "-1", -1), "l-1g", "log", 1), "RArgTooManyPos")
 	ex("arg-named-after-kwargs", "log(**{}, \x01k=2)", "RArgNamedAfterKwargs")
 	ex("arg-named-after-star", "log(*[1], \x01k=2)", "RArgNamedAfterStar")
 	ex("arg-repeated", "log(k=1, \x01k=2)", "RArgRepeatedName")
@@ -897,6 +913,48 @@ func execute(src string, bits int, legacy int) (res run) {
 	return
 }
 
+// executeViaLoader: the program is a module reached through load(), executed by the loader that
+// repl.MakeLoadOptions(opts) returns; the process-wide legacy flags are set to the COMPLEMENT of
+// opts meanwhile, so an entry point that ignores the options it was given shows.
+func executeViaLoader(src string, bits int) (res run) {
+	res.Opts = bits
+	res.Errs = []rerr{}
+	opts, o := optsOf(bits)
+	if err := os.WriteFile("p.star", []byte(src), 0o644); err != nil {
+		res.Other = err.Error()
+		return
+	}
+	s0, g0, r0, l0 := resolve.AllowSet, resolve.AllowGlobalReassign, resolve.AllowRecursion, resolve.LoadBindsGlobally
+	resolve.AllowSet, resolve.AllowGlobalReassign, resolve.AllowRecursion, resolve.LoadBindsGlobally = !o[oSet], !(o[oWhile] && o[oTLC] && o[oGR]), !o[oRec], !o[oLBG]
+	defer func() {
+		resolve.AllowSet, resolve.AllowGlobalReassign, resolve.AllowRecursion, resolve.LoadBindsGlobally = s0, g0, r0, l0
+		if r := recover(); r != nil {
+			res.Other = fmt.Sprintf("panic: %v", r)
+		}
+	}()
+	loader := repl.MakeLoadOptions(opts)
+	thread := &starlark.Thread{Name: "c09-loader", Load: loader}
+	thread.SetMaxExecutionSteps(200000)
+	_, err := loader(thread, "p.star")
+	if err == nil {
+		res.Accepted = true
+		return
+	}
+	var el resolve.ErrorList
+	var ee *starlark.EvalError
+	switch {
+	case errors.As(err, &el):
+		for _, e := range el {
+			res.Errs = append(res.Errs, rerr{ruleOf(e.Msg), posID(e.Pos)})
+		}
+	case errors.As(err, &ee):
+		res.Accepted = true
+	default:
+		res.Other = fmt.Sprintf("%T: %v", err, err)
+	}
+	return
+}
+
 type progOut struct {
 	Kind     string   `json:"kind"` // "prog"
 	Plant    string   `json:"plant"`
@@ -917,6 +975,12 @@ func resolveMain(argv []string) {
 	ncoq := fs.Int("coq", 100, "programs printed with their tree for Coq")
 	fs.Parse(argv)
 	r := hx.NewRand(*seed)
+	// modules reached through repl.MakeLoadOptions are read from the file system
+	if dir, err := os.MkdirTemp("", "c09-loader"); err == nil {
+		defer os.RemoveAll(dir)
+		os.Chdir(dir)
+		os.WriteFile("m.star", []byte("la = 1\nlc = 2\nzz = 3\n_zz = 4\n"), 0o644)
+	}
 	pl := plants()
 	cps, css := ctxPlants(), ctxSites()
 	dist := map[string]int{}
@@ -1077,6 +1141,33 @@ func resolveMain(argv []string) {
 				}
 			}
 			out.Runs = append(out.Runs, res)
+		}
+		// the same program as a loaded module, through the loader of repl.MakeLoadOptions(opts): every entry point
+		// that takes FileOptions must honour them (compared with ExecFileOptions on the same text)
+		src2 := "def log(*a, **k): return None\n" + pr.Src
+		loaderVecs := []int{0, 63}
+		if *nvec >= 64 {
+			loaderVecs = []int{0, 63, 21, 42}
+		}
+		for _, b := range loaderVecs {
+			direct := execute(src2, b, 0)
+			viaLoad := executeViaLoader(src2, b)
+			total++
+			same := direct.Accepted == viaLoad.Accepted && len(direct.Errs) == len(viaLoad.Errs) && direct.Other == "" && viaLoad.Other == ""
+			for j := 0; same && j < len(direct.Errs); j++ {
+				same = direct.Errs[j] == viaLoad.Errs[j]
+			}
+			if !same {
+				what := "accepted"
+				if !viaLoad.Accepted {
+					what = fmt.Sprintf("rejected with %v %s", viaLoad.Errs, viaLoad.Other)
+				}
+				exp := "accepted"
+				if !direct.Accepted {
+					exp = fmt.Sprintf("rejected with %v %s", direct.Errs, direct.Other)
+				}
+				out.Problems = append(out.Problems, fmt.Sprintf("loader entry point repl.MakeLoadOptions with opts=%06b (legacy flags set to the complement): module %s; under these options it must be %s (positions are one line down: a def of log is prepended)", b, what, exp))
+			}
 		}
 		if len(out.Problems) > 0 {
 			problems++
